@@ -15,6 +15,8 @@ from . import shim
 from .gen import Config, grow_blob
 
 DEFAULT_WEIGHTS = {
+    "scenario": 0,
+    "prim_seg": 0,
     "add_node": 3,
     "delete_node": 3,
     "add_edge": 4,
@@ -110,7 +112,125 @@ class OpGen:
     def bad(self, p):
         return self.rng.random() < p * self.refusal_rate
 
+    # -- scripted multi-step scenarios (the sequences the properties name); every step is
+    #    resolved against the state it meets, a step that cannot be resolved ends the script
+    queue: list = ()
+    scenario_log: list = ()
+
     def next(self, tracks) -> dict:
+        while self.queue:
+            step = self.queue.pop(0)
+            op = step(tracks)
+            if op is None:
+                self.queue = []
+                break
+            return self._mark(op)
+        return self._mark(self.next_random(tracks))
+
+    def _mark(self, op):
+        # ids, times and track ids handed over as numpy integers (a GUI passes what it
+        # reads from arrays)
+        if self.cfg.npint and op.get("op") not in ("undo", "redo", "features") \
+                and self.rng.random() < 0.7:
+            op["np"] = True
+        return op
+
+    def iou_key(self, tracks):
+        from .checks import iou_key
+
+        return iou_key(tracks)
+
+    def toggleable(self, tracks):
+        """Annotator keys that may be switched while edits run (not the two id features;
+        not what the dependency cannot compute for this configuration)."""
+        f = tracks.features
+        ks = [k for k in tracks.annotators.all_features
+              if k not in (f.tracklet_key, f.lineage_key)]
+        if self.cfg.ndim == 4 and not self.cfg.thick:
+            ks = [k for k in ks if k != "ellipse_axis_radii"]
+        if self.cfg.ndim == 3 and self.cfg.scale in ("aniso", "tscale"):
+            ks = [k for k in ks if k not in ("perimeter", "circularity")]
+        return sorted(ks)
+
+    def gen_scenario(self, tracks):
+        """'value saved while stale': disable k - change a mask - delete the element -
+        enable k (bulk recomputation cannot see the deleted element) - undo (- redo - undo)."""
+        rng = self.rng
+        seg = tracks.segmentation
+        if seg is None:
+            return None
+        g = tracks.graph
+        nodes = [int(n) for n in g.nodes]
+        if not nodes:
+            return None
+        enabled = [k for k in self.toggleable(tracks) if k in tracks.annotators.features]
+        keys = self.scenario_keys(tracks, enabled)
+        if not keys:
+            return None
+        k = rng.choice(keys)
+        # sometimes two features go off together and come back one by one
+        others = [x for x in keys if x != k]
+        k2 = rng.choice(others) if others and rng.random() < 0.4 else None
+        ik = self.iou_key(tracks)
+        if k == ik:
+            cands = [n for n in nodes if g.degree(n) > 0]
+        else:
+            cands = nodes
+        if not cands:
+            return None
+        n = rng.choice(cands)
+        t = node_time(tracks, n)
+        ctx = {"k": k, "n": n, "t": t}
+
+        def s_disable(tr):
+            return {"op": "features", "disable": [k] + ([k2] if k2 else [])}
+
+        def s_mask(tr):
+            if n not in tr.graph:
+                return None
+            own = np.argwhere(tr.segmentation[t] == n)
+            free = np.argwhere(tr.segmentation[t] == 0)
+            if len(own) >= 2 and (rng.random() < 0.5 or len(free) == 0):
+                cut = own[: rng.randint(1, len(own) - 1)]
+                cells, label = [tuple(int(x) for x in c) for c in cut], 0
+            elif len(free):
+                # grow onto free cells next to the mask if there are any, else anywhere
+                near = [c for c in free if np.abs(own - c).sum(axis=1).min() == 1]
+                pick = near if near else list(free)
+                rng.shuffle(pick)
+                cells = [tuple(int(x) for x in c) for c in pick[: rng.randint(1, 3)]]
+                label = n
+            else:
+                return None
+            return {"op": "paint", "t": int(t), "label": int(label),
+                    "cells": sorted(list(c) for c in cells),
+                    "track_id": int(tr.get_track_id(n)), "force": False, "order": "asc"}
+
+        def s_delete(tr):
+            if n not in tr.graph:
+                return None
+            es = list(tr.graph.in_edges(n)) + list(tr.graph.out_edges(n))
+            if k == ik and es and rng.random() < 0.6:
+                u, v = rng.choice(es)
+                return {"op": "delete_edge", "edge": [int(u), int(v)]}
+            return {"op": "delete_node", "node": int(n)}
+
+        def s_enable(tr):
+            return {"op": "features", "enable": [k], "recompute": True}
+
+        steps = [s_disable, s_mask, s_delete, s_enable]
+        if k2:
+            steps.append(lambda tr: {"op": "features", "enable": [k2], "recompute": True})
+        steps.append(lambda tr: {"op": "undo"})
+        if rng.random() < 0.5:
+            steps += [lambda tr: {"op": "redo"}, lambda tr: {"op": "undo"}]
+        self.queue = steps[1:]
+        return s_disable(tracks)
+
+    def scenario_keys(self, tracks, enabled):
+        return enabled
+
+    def next_random(self, tracks) -> dict:
         rng = self.rng
         kinds = [k for k in self.w if self.w[k] > 0]
         if tracks.segmentation is None and "paint" in kinds:
@@ -149,12 +269,31 @@ class OpGen:
             if not cells:
                 return None
             op["pixels"] = [list(c) for c in cells]
+            if rng.random() < 0.12:
+                # the caller passes measurements next to the pixels (allowed: "attributes
+                # includes times, track_ids, and optionally positions"); the stored values
+                # must still be the ones of the mask
+                op["pos"] = [round(rng.uniform(0, s - 1), 3) for s in tracks.segmentation.shape[1:]]
+                if rng.random() < 0.5:
+                    op["area"] = float(rng.randint(1, 50))
             if self.bad(0.05):
                 del op["pixels"]  # neither pixels nor position: refused (late)
+                op.pop("pos", None)
+            elif self.bad(0.04):
+                # a pixel outside the array: the write is refused (IndexError)
+                c = list(op["pixels"][-1])
+                d = rng.randrange(len(c))
+                c[d] = tracks.segmentation.shape[1 + d] + rng.randint(0, 3)
+                op["pixels"].append(c)
+            elif self.bad(0.03):
+                op["time"] = T + rng.randint(0, 2)  # frame beyond the array
         else:
             op["pos"] = [round(rng.uniform(0, s - 1), 3) for s in cfg.frame_shape()]
             if self.bad(0.06):
                 del op["pos"]
+            elif self.bad(0.04):
+                # pixels although the tracks have no segmentation: refused (ValueError)
+                op["pixels"] = [[rng.randrange(s) for s in cfg.frame_shape()]]
         if self.bad(0.03):
             op["omit"] = rng.choice(["time", "track_id"])
         return op
@@ -266,7 +405,9 @@ class OpGen:
             val: Any = rng.randint(0, 5)
         else:
             key = rng.choice(["score", "note", "flag"])
-            val = {"score": round(rng.random(), 3), "note": rng.choice(["a", "b", "c"]),
+            # falsy values on purpose (0, 0.0, "", False are values, not "missing")
+            val = {"score": rng.choice([0.0, 0, round(rng.random(), 3), round(rng.random(), 3)]),
+                   "note": rng.choice(["a", "b", ""]),
                    "flag": rng.random() < 0.5}[key]
         return {"op": "update_attrs", "node": n, "attrs": {key: val}}
 
@@ -335,6 +476,8 @@ class OpGen:
             "track_id": ctid,
             "force": rng.random() < 0.5,
             "order": rng.choice(["asc", "desc"]),
+            **({"noop_call": True} if label == 0 and rng.random() < 0.5 else {}),
+            **({"via": "controller"} if rng.random() < 0.1 else {}),
         }
 
     @staticmethod
@@ -348,10 +491,38 @@ class OpGen:
         return out
 
     def gen_undo(self, tracks):
+        if self.rng.random() < 0.12:
+            return {"op": "undo", "via": "controller"}
         return {"op": "undo"}
 
     def gen_redo(self, tracks):
+        if self.rng.random() < 0.12:
+            return {"op": "redo", "via": "controller"}
         return {"op": "redo"}
+
+    def gen_prim_seg(self, tracks):
+        """Primitive UpdateNodeSeg on a random node: remove part / ALL of its mask or add
+        free pixels; executed together with its inverse."""
+        rng = self.rng
+        seg = tracks.segmentation
+        nodes = [int(n) for n in tracks.graph.nodes]
+        if seg is None or not nodes:
+            return None
+        n = rng.choice(nodes)
+        t = node_time(tracks, n)
+        own = [tuple(int(x) for x in c) for c in np.argwhere(seg[t] == n)]
+        free = [tuple(int(x) for x in c) for c in np.argwhere(seg[t] == 0)]
+        r = rng.random()
+        if r < 0.4 and own:
+            cells, added = own, False  # the whole mask
+        elif r < 0.7 and len(own) >= 2:
+            cells, added = own[: rng.randint(1, len(own) - 1)], False
+        elif free:
+            cells, added = rng.sample(free, min(len(free), rng.randint(1, 3))), True
+        else:
+            return None
+        return {"op": "prim_seg", "node": n, "t": int(t), "cells": [list(c) for c in cells],
+                "added": added}
 
 
 # ----------------------------------------------------------------------------- execution
@@ -400,7 +571,7 @@ def named_of(tracks, op: dict) -> dict:
         nodes.update(op["edge"])
     elif k == "swap":
         nodes.update(op["nodes"])
-    elif k == "update_attrs":
+    elif k in ("update_attrs", "prim_seg"):
         nodes.add(op["node"])
     elif k == "paint":
         nodes.add(op["label"])
@@ -429,15 +600,16 @@ def execute_inner(tracks, op: dict) -> Outcome:
     k = op["op"]
     info: dict = {}
     restore = None
+    I = (lambda x: np.int64(x)) if op.get("np") else (lambda x: x)  # noqa: E741
     try:
         with warnings.catch_warnings():
             warnings.simplefilter("ignore")
             if k == "add_node":
                 attrs: dict[str, Any] = {}
                 if op.get("omit") != "time":
-                    attrs[tracks.features.time_key] = op["time"]
+                    attrs[tracks.features.time_key] = I(op["time"])
                 if op.get("omit") != "track_id":
-                    attrs[tracks.features.tracklet_key] = op["track_id"]
+                    attrs[tracks.features.tracklet_key] = I(op["track_id"])
                 pixels = None
                 if "pixels" in op:
                     pixels = _pixels_tuple(op["time"], op["pixels"])
@@ -448,19 +620,33 @@ def execute_inner(tracks, op: dict) -> Outcome:
                             attrs[a] = p
                     else:
                         attrs[pk] = list(op["pos"])
-                a = UserAddNode(tracks, op["node"], attrs, pixels=pixels,
+                if "area" in op and "area" in tracks.annotators.all_features:
+                    attrs["area"] = op["area"]
+                a = UserAddNode(tracks, I(op["node"]), attrs, pixels=pixels,
                                 force=op.get("force", False))
                 info["attrs_after"] = dict(attrs)
             elif k == "delete_node":
-                a = UserDeleteNode(tracks, op["node"])
+                a = UserDeleteNode(tracks, I(op["node"]))
             elif k == "add_edge":
-                a = UserAddEdge(tracks, tuple(op["edge"]), force=op.get("force", False))
+                a = UserAddEdge(tracks, tuple(I(x) for x in op["edge"]),
+                                force=op.get("force", False))
             elif k == "delete_edge":
-                a = UserDeleteEdge(tracks, tuple(op["edge"]))
+                a = UserDeleteEdge(tracks, tuple(I(x) for x in op["edge"]))
             elif k == "swap":
-                a = UserSwapPredecessors(tracks, tuple(op["nodes"]))
+                a = UserSwapPredecessors(tracks, tuple(I(x) for x in op["nodes"]))
             elif k == "update_attrs":
-                a = UserUpdateNodeAttrs(tracks, op["node"], dict(op["attrs"]))
+                a = UserUpdateNodeAttrs(tracks, I(op["node"]), dict(op["attrs"]))
+            elif k == "prim_seg":
+                # primitive UpdateNodeSeg (all or part of a node's mask removed, or pixels
+                # added) immediately inverted: the session state is left where it was
+                from funtracks.actions import UpdateNodeSeg
+
+                n = op["node"]
+                px = _pixels_tuple(op["t"], op["cells"])
+                a = UpdateNodeSeg(tracks, n, px, added=op["added"])
+                info["mid"] = {"seg_pixels_of_node": int((tracks.segmentation[op["t"]] == n).sum())}
+                a.inverse()
+                return Outcome(ok=True, ret="prim", info=info)
             elif k == "paint":
                 seg = tracks.segmentation
                 t, label = op["t"], op["label"]
@@ -468,12 +654,23 @@ def execute_inner(tracks, op: dict) -> Outcome:
                 prev = [int(seg[(t, *c)]) for c in cells]
                 changed = [(c, p) for c, p in zip(cells, prev) if p != label]
                 info["changed"] = len(changed)
+                if not changed and op.get("noop_call") and label == 0:
+                    info["painted"] = seg.copy()
+                    info["before"] = seg.copy()
+                    info["prev_labels"] = [0]
+                    a = UserUpdateSegmentation(tracks, 0, [(_pixels_tuple(t, cells), 0)],
+                                               I(op["track_id"]), force=op.get("force", False))
+                    return Outcome(ok=True, action=a, info=info)
                 if not changed:
                     return Outcome(ok=True, ret="noop", info=info)
                 groups: dict[int, list] = {}
                 for c, p in changed:
                     groups.setdefault(p, []).append(c)
                 before = seg.copy()
+                if op.get("noop_call"):
+                    # a stroke that changes nothing still reaches the action (label 0 over
+                    # background): one empty step, one refresh
+                    pass
                 idx = _pixels_tuple(t, [c for c, _ in changed])
                 seg[idx] = label  # the caller paints first
                 info["painted"] = seg.copy()
@@ -482,8 +679,15 @@ def execute_inner(tracks, op: dict) -> Outcome:
                 restore = (idx, before[idx].copy())
                 keys = sorted(groups, reverse=(op.get("order") == "desc"))
                 updated = [(_pixels_tuple(t, groups[p]), p) for p in keys]
-                a = UserUpdateSegmentation(tracks, label, updated, op["track_id"],
-                                           force=op.get("force", False))
+                if op.get("via") == "controller":
+                    from funtracks.data_model.tracks_controller import TracksController
+
+                    TracksController(tracks).update_segmentations(
+                        I(label), updated, t, I(op["track_id"]), force=op.get("force", False))
+                    a = tracks.action_history.undo_stack[-1]
+                else:
+                    a = UserUpdateSegmentation(tracks, I(label), updated, I(op["track_id"]),
+                                               force=op.get("force", False))
             elif k == "features":
                 if op.get("enable"):
                     tracks.enable_features(list(op["enable"]),
@@ -491,11 +695,14 @@ def execute_inner(tracks, op: dict) -> Outcome:
                 if op.get("disable"):
                     tracks.disable_features(list(op["disable"]))
                 return Outcome(ok=True, ret="features", info=info)
-            elif k == "undo":
-                r = tracks.undo()
-                return Outcome(ok=True, ret=r, info=info)
-            elif k == "redo":
-                r = tracks.redo()
+            elif k in ("undo", "redo"):
+                if op.get("via") == "controller":
+                    # the deprecated compatibility wrapper
+                    from funtracks.data_model.tracks_controller import TracksController
+
+                    r = getattr(TracksController(tracks), k)()
+                else:
+                    r = getattr(tracks, k)()
                 return Outcome(ok=True, ret=r, info=info)
             else:
                 raise ValueError(f"unknown op {k}")
